@@ -462,6 +462,7 @@ _core.ShortCircuitingContext.make_interceptor = lambda self, original: original
 # lets to_bytes return the original byte terms when (and only when) it is applied to the very
 # term from_bytes produced, with the same length, byte order and signedness.  Anything else
 # (other width, other signedness, arithmetic on the value) takes CrossHair's generic model.
+# Applied to 2..16 bytes: 4-byte handles under negated interval constraints cost 10 s per query otherwise.
 import crosshair.libimpl.builtinslib as _bl
 
 
@@ -481,7 +482,7 @@ def _from_bytes(b, byteorder="big", *, signed=False):
                 items = list(b.inner) if isinstance(b, SymbolicBytes) else list(b)
             except Exception:
                 items = None
-            if items is not None and 4 < len(items) <= 16:
+            if items is not None and 2 <= len(items) <= 16:
                 m = context_statespace().extra(_FromBytesMap)
                 m[val.var.get_id()] = (val.var, items, byteorder, signed)
     return val
